@@ -24,9 +24,9 @@ KIND_ALIASES = {"Int": ("Int", "Integer"), "Str": ("Str", "String"), "Bool": ("B
 
 def run(ctx: Ctx, chk) -> None:
     chk.assume("A3", "A5")
-    schema_bij(ctx, chk)
-    valid_sym(ctx, chk)
-    legacy1(ctx, chk)
+    chk.run_rule(schema_bij, ctx)
+    chk.run_rule(valid_sym, ctx)
+    chk.run_rule(legacy1, ctx)
 
 
 def stored_attrs(ctx: Ctx, c: ClassInfo) -> dict[str, str]:
@@ -233,17 +233,42 @@ def value_within(ctx: Ctx, f: FuncInfo, node: ast.AST, val: ast.expr, lo, hi):
                 continue
             if (lo is None or (tlo is not None and tlo >= lo)) and (hi is None or (thi is not None and thi <= hi)):
                 return True, f"dominated by the range check `{norm(t.ast)}`"
-        # allocator: interval of the id (C11 RANGE-1)
+        # upper bound from a dominating `v > K -> raise` test (C11 RANGE-1), lower bound from the expression shape
         la = ctx.I.local_assigns(f).get(val.id) or []
-        if len(la) == 1 and isinstance(la[0], ast.IfExp) and "max(gateway.nodes)" in norm(la[0]):
+        if len(la) == 1 and isinstance(la[0], ast.expr):
+            low = lower_bound(la[0])
+            from .c11 import interval_truth
+
             for t in g.nodes:
                 if t.kind == "test" and snodes and all(g.dominates(t, s) for s in snodes):
-                    from .c11 import interval_truth
-
                     iv = interval_truth(ctx, f, t.ast, val.id)
-                    if iv is not None and (hi is None or iv[0] - 1 <= hi) and (lo is None or 1 >= lo):
-                        return True, f"allocated id in [1, {iv[0] - 1}] (range check `{norm(t.ast)}`)"
+                    if iv is None:
+                        continue
+                    # the store must be on the false branch (test true -> raise)
+                    true_starts = [s2 for s2, lab in t.succ if lab == "t"]
+                    if g.reach_avoiding(true_starts, lambda x: x in snodes, lambda x, t=t: x is t, from_succ=False) is not None:
+                        continue
+                    upper = iv[0] - 1
+                    if low is not None and (lo is None or low >= lo) and (hi is None or upper <= hi):
+                        return True, f"value in [{low}, {upper}] (shape of `{norm(la[0])[:40]}`, range check `{norm(t.ast)}`)"
     return False, f"value `{c[:60]}` is unbounded"
+
+
+def lower_bound(e: ast.expr):
+    """A lower bound of an integer expression built from len(), max() over the registry keys (>= 0), constants, + and conditional."""
+    if isinstance(e, ast.Constant) and isinstance(e.value, int) and not isinstance(e.value, bool):
+        return e.value
+    if isinstance(e, ast.Call) and norm(e.func) == "len":
+        return 0
+    if isinstance(e, ast.Call) and norm(e.func) in ("max", "min") and len(e.args) == 1 and norm(e.args[0]) in ("gateway.nodes", "gateway.nodes.keys()"):
+        return 0  # registry keys are node ids, validated >= 0 wherever they enter (VALID-SYM on node_id itself)
+    if isinstance(e, ast.BinOp) and isinstance(e.op, ast.Add):
+        a, b = lower_bound(e.left), lower_bound(e.right)
+        return None if a is None or b is None else a + b
+    if isinstance(e, ast.IfExp):
+        a, b = lower_bound(e.body), lower_bound(e.orelse)
+        return None if a is None or b is None else min(a, b)
+    return None
 
 
 def range_of_test(ctx: Ctx, f: FuncInfo, test: ast.expr, var: str):
